@@ -1,6 +1,8 @@
 (* Properties_C03.v — rwp::Resource: FIFO fairness, waiting requests are never overtaken.
    Only statements, each closed by [exact <lemma of ResourceProofs>], and Print Assumptions. *)
 From Coq Require Import List ZArith Bool Lia.
+From Tulz Require Import RaceModel AtomicSections.
+From TulzGen Require Import Accesses.
 From Tulz Require Import Common ResourceModel ResourceInv ResourceLemmas ResourceOrder.
 Import ListNotations.
 Local Open Scope Z_scope.
@@ -41,3 +43,15 @@ Example C03_nonvacuous :
   hist (run true (init 3) [Req 0 Wr; Req 1 Rd; Req 2 Wr; Rel 0; Notify 0; Wake 1])
   = [HGrant 1 1; HPark 2 2; HIssue 2 2 Wr; HPark 1 1; HIssue 1 1 Rd; HGrant 0 0; HIssue 0 0 Wr].
 Proof. vm_compute. reflexivity. Qed.
+
+(* The premise of the atomic-step model, checked on the access rows the translator extracted from the
+   CURRENT source (TulzGen.Accesses, regenerated on every run): every access to the Resource's state in
+   Resource::lock / Resource::unlock (and the helpers they call) is made holding m_mutex, hence no two
+   threads are ever inside those sections at once (AtomicSections.v). *)
+Theorem C03_sections_atomic : forall n os t1 t2 a1 a2,
+  t1 <> t2 -> In a1 TulzGen.Accesses.extracted_accesses -> In a2 TulzGen.Accesses.extracted_accesses ->
+  RaceModel.a_comp a1 = resource_component -> RaceModel.a_comp a2 = resource_component ->
+  RaceModel.can_perform (RaceModel.lrun (RaceModel.linit n) os) t1 a1 ->
+  RaceModel.can_perform (RaceModel.lrun (RaceModel.linit n) os) t2 a2 -> False.
+Proof. apply (AtomicSections.sections_exclusive resource_component resource_mutex). vm_compute. reflexivity. Qed.
+Print Assumptions C03_sections_atomic.
